@@ -9,7 +9,7 @@
 // container shapes -- no verdict in 600 s for 8 magic-byte cases of the 64-byte file; the property's own quantifier is
 // "every single-byte substitution ... with every one of a set of boundary values", which is what is enumerated.)
 // The stream is the memory-buffer model of models/stream_model.cpp (vstream.h); natively a real std::istream.
-// shard params: 0 = file (FM_EMPTY/FM_TET/FM_TETP), 1 = block of 8 cases.
+// shard params: 0 = file (FM_EMPTY/FM_TET/FM_TETP), 1 = block of 8 cases, 2 = substitution value mode (see M_SUBST).
 #include "verif.h"
 #include "c18_meshes.h"
 #include "vstream.h"
@@ -123,7 +123,10 @@ static __attribute__((noinline)) void do_case(unsigned i) {
     break; }
   case M_SUBST: case M_SUBST_COMPRESSION: {   // (2) one byte of a must-reject field replaced by a boundary value
     // case n = (k-th byte of the must-reject set, value slot): classes from the generator's walk of the published layout
-    unsigned k = n / N_SLOTS, slot = n % N_SLOTS;
+    // shard param 2: 0 = all value slots of every byte (n = byte * N_SLOTS + slot), 1 = one value per byte (quick tier: orig^0x01,
+    // or the smallest constraint-violating value for the fields that have a constraint)
+    bool one = v_param(2) == 1;
+    unsigned k = one ? n : n / N_SLOTS, slot = one ? 0 : n % N_SLOTS;
     unsigned off = 0, cnt = 0; bool found = false;
     for (unsigned o = 0; o < d.len; ++o) {
       bool in = g_mode == M_SUBST ? (d.cls[o] != CLS_FREE && d.cls[o] != CLS_COMPRESSION) : d.cls[o] == CLS_COMPRESSION;
@@ -139,6 +142,7 @@ static __attribute__((noinline)) void do_case(unsigned i) {
     if (cls == CLS_HANDLE) lo = d.chunk_limit[chunk];                   // (files use 1-byte handles) handle >= number of referenced entities
     if (cls == CLS_HANDLE_OFFSET && ((off - (d.chunk_off[chunk] + 32)) & 7) == 0) lo = d.chunk_limit[chunk] - d.chunk_maxh[chunk];   // largest handle leaves the range
     unsigned cand[N_SLOTS] = { orig ^ 0x01u, orig ^ 0x80u, 0x00u, 0xffu, lo };
+    if (one && lo != 0) slot = N_SLOTS - 1;
     unsigned nb = cand[slot];
     bool dup = nb == orig || nb < lo || nb > 255;
     for (unsigned j = 0; j < N_SLOTS; ++j) if (j < slot && cand[j] == nb) dup = true;
@@ -186,5 +190,3 @@ extern "C" void harness_valid() {
   v_witness("valid file read");
 }
 
-// development probe: one concrete case without the selector
-extern "C" void harness_one() { g_mode = v_param(2); do_case(v_param(3)); }
